@@ -159,3 +159,17 @@ CHECKS["C09"] = {
         enum_job("send-timeout", "./verifh/c09", "TestBackpressureSendTimeout"),
     ],
 }
+
+CHECKS["C02"] = {
+    "rule": ("(systematic) rapid draws a main write and up to 3 nested interfering writes (Set/Add/Update/Delete with CAS, checks, delta interceptors, create-if-absent, expect-absent, allow-missing) and "
+             "the window (gau.afterRead, gau.beforeLock, coll.delete.afterRead, coll.delete.beforeLock, with up to 6 re-fires for Delete's retry loop) in which each interfering call runs inline via the verif hooks; "
+             "(statistical) 2-4 goroutines x 1-4 ops with hook points turned into drawn yields, and counter stress with 2-8 goroutines. Oracle: exhaustive search for a linearization of the recorded "
+             "history against the reference store (success results must match, failures must be model-explained or race codes with no effect, final state must match) plus direct invariants "
+             "(no double Add, sum of successful increments == counter). non-trivial = the planned window was reached (hook hit) / two ops overlapped in time; distinct by (ops, window, outcomes)"),
+    "assumptions": ["code inside sync.RWMutex critical sections is atomic", "only the named windows are forced; other schedules are explored statistically"],
+    "jobs": [
+        rapid_job("forced", "./verifh/c02", "TestForcedInterleavings", 60000, 200000),
+        rapid_job("stress", "./verifh/c02", "TestStressLinearizable", 20000, 80000),
+        rapid_job("counters", "./verifh/c02", "TestStressCounters", 1500, 5000, shards_t=8),
+    ],
+}
